@@ -80,7 +80,7 @@ def gen_plan(tape, cfg):
             symbols["pr"] = ["Fun", [bp.BOOL, bp.BV(1)], bp.BOOL]
         if not any(bp.is_bv(s_) and s_[1] == 1 for s_ in symbols.values()):
             symbols["o1"] = bp.BV(1)
-    ctx = bp.GenCtx(symbols, bv=True, usorts=use_usort)
+    ctx = bp.GenCtx(symbols, bv=True, usorts=use_usort, quant=use_usort and tape.chance(1, 2, "quantifiers"))
     nsolvers = 2 if tape.chance(1, 4, "two solvers") else 1
     kinds = [(6, "assert"), (3, "push"), (3, "pop"), (4, "solve"), (1, "reset")]
     for w, k in [(3, "get_value"), (2, "get_model"), (2, "is_sat"), (1, "is_valid"), (1, "is_unsat"),
@@ -120,6 +120,27 @@ def gen_plan(tape, cfg):
             res = ["S", "%s_%d" % (t[3][1], e)] if bp.is_usort(t[3]) else t[3]
             symbols[nm] = ["Fun", t[2], res]
             return ["app", nm, t[2], res] + [ren(x, e) for x in t[4:]]
+        if t[0] in bp.QUANT:
+            # bound variables keep their names; their sorts belong to the new generation
+            newname = {}
+            binders = []
+            for n_, s_ in t[1]:
+                s2 = ["S", "%s_%d" % (s_[1], e)] if bp.is_usort(s_) else s_
+                newname[n_] = ("%s_%s" % (n_.split("_")[0], s2[1]) if bp.is_usort(s_) else n_, s2)
+                binders.append([newname[n_][0], s2])
+
+            def rebind(x):
+                if x[0] == "sym" and x[1] in newname:
+                    return ["sym", newname[x[1]][0], newname[x[1]][1]]
+                if x[0] in ("bool", "int", "real", "bv"):
+                    return x
+                if x[0] == "sym":
+                    return ren(x, e)
+                if x[0] == "app":
+                    return ren(x[:4], e) [:4] + [rebind(y) for y in x[4:]]
+                b_ = 1 + bp.PARAM_OPS.get(x[0], 0)
+                return x[:b_] + [rebind(y) for y in x[b_:]]
+            return [t[0], binders, rebind(t[2])]
         base = 1 + bp.PARAM_OPS.get(t[0], 0)
         return t[:base] + [ren(x, e) for x in t[base:]]
 
